@@ -14,19 +14,9 @@ TOKENS = ["MOV", "ADD", "AX", "EAX", "AL", "[", "]", ",", "+", "-", "*", "/", "%
 
 def classify(src):
     """known crash classes, decided from the input text"""
-    if re.search(r"^\s*INT\s+(?!(?:\d{1,2}|1[01]\d|12[0-7])\s*(?:[;#].*)?$)\S", src, re.M):
-        return "C13-int-operand-panic"
     m = re.search(r"^\s*RESB\s+(0x[0-9a-fA-F]+|\d+)\s*$", src, re.M)
     if m and int(m.group(1), 0) >= 1 << 31:
         return "C13-resb-huge-allocation"
-    for m in re.finditer(r"^\s*([A-Za-z_.$][\w.$]*)\s+EQU\s+(.*)$", src, re.M):
-        if re.search(r"(?<![\w.$])%s(?![\w.$])" % re.escape(m.group(1)), m.group(2)):
-            return "C13-equ-self-reference"
-    names = dict((m.group(1), m.group(2)) for m in re.finditer(r"^\s*([A-Za-z_.$][\w.$]*)\s+EQU\s+(.*)$", src, re.M))
-    for n, body in names.items():       # two-step cycles
-        for n2, body2 in names.items():
-            if n2 != n and re.search(r"(?<![\w.$])%s(?![\w.$])" % re.escape(n2), body) and re.search(r"(?<![\w.$])%s(?![\w.$])" % re.escape(n), body2):
-                return "C13-equ-self-reference"
     if src.count("(") > 20000:
         return "C13-deep-nesting-stack"
     return None
